@@ -107,7 +107,9 @@ class FunctionTransformer(converter.Base):
         if (isinstance(first_statement, ast.Expr) and
             isinstance(first_statement.value, ast.Constant)):
           docstring_node = first_statement
-          node.body = node.body[1:]
+          # A body that consists of the docstring alone (or of a lone constant
+          # such as `...`) must not leave the `with` block below empty.
+          node.body = node.body[1:] or [ast.Pass()]
 
       template = """
         with ag__.FunctionScope(
